@@ -139,3 +139,29 @@ func runReplica(h *History, hooks func(s *Sim, bi int, b *Block) *BlockHooks, af
 	}
 	return s, out, nil
 }
+
+// runReplicaPre is runReplica with an extra hook before BeginBlock of every block.
+func runReplicaPre(h *History, pre func(s *Sim, bi int, b *Block), hooks func(s *Sim, bi int, b *Block) *BlockHooks, afterBlock func(s *Sim, bi int, b *Block, br *BlockResult) error) (*Sim, []*BlockResult, error) {
+	s := NewSim(h.Genesis)
+	var out []*BlockResult
+	for bi, b := range h.Blocks {
+		if pre != nil {
+			pre(s, bi, b)
+		}
+		var hk *BlockHooks
+		if hooks != nil {
+			hk = hooks(s, bi, b)
+		}
+		br, perr := s.RunBlock(b, hk)
+		if perr != nil {
+			return s, out, perr
+		}
+		out = append(out, br)
+		if afterBlock != nil {
+			if err := afterBlock(s, bi, b, br); err != nil {
+				return s, out, err
+			}
+		}
+	}
+	return s, out, nil
+}
